@@ -100,6 +100,9 @@ inductive Act where
   | cancel (w : Nat)
   /-- waiter `w`'s write failed -/
   | writeFail (w : Nat)
+  /-- waiter `w`'s context ended after it registered and before it wrote (`ctx.Err()` check in front of the
+  write): `RoundTrip` leaves without writing and WITHOUT closing the connection -/
+  | abort (w : Nat)
   /-- read error / EOF / `Close()` from the pool -/
   | connClose (c : Nat)
   /-- waiter `w` runs its deferred clean-up and returns -/
@@ -153,6 +156,10 @@ def step (pol : Recycle) (s : St) : Act → St
   | .writeFail w =>
     match s.pc w with
     | .waiting c id sl => { s with pc := upd s.pc w (.leaving c id sl false .writeErr) }
+    | _ => s
+  | .abort w =>
+    match s.pc w with
+    | .waiting c id sl => { s with pc := upd s.pc w (.leaving c id sl false .ctxErr) }
     | _ => s
   | .connClose c => { s with closed := upd s.closed c true }
   | .leave w =>
